@@ -396,6 +396,12 @@ class Pool:
         for _ in range(2):
             d = G.gen_compound(rng, rng.randint(1, 2), lambda: G.gen_simple(rng, rng.choice(G.SIMPLE_KINDS), scale=2.0, center_scale=5))
             self.pix.append(G.build(d))
+        # numeric carrier types other than float64 / Python float (an operation that "normalises" them writes to its input)
+        self.pix.append(R.PolygonPixelRegion(R.PixCoord(np.array([1, 7, 4], dtype=np.int64), np.array([1, 2, 8], dtype=np.int64))))
+        self.pix.append(R.PolygonPixelRegion(R.PixCoord(np.array([2.5, 9.25, 5.0, 1.5], dtype=np.float32),
+                                                        np.array([3.0, 4.5, 11.0, 7.25], dtype=np.float32))))
+        self.pix.append(R.CirclePixelRegion(R.PixCoord(np.float32(6.5), np.float32(4.25)), np.float32(3.5)))
+        self.pix.append(R.RectanglePixelRegion(R.PixCoord(7, 9), np.uint8(6), np.int16(4), angle=30 * u.deg))
         # sky regions of every class
         def sc(n=None):
             # positions near the reference point of one of the first two WCSs, in a random frame
